@@ -10,7 +10,7 @@ LEVEL_NOTE = ("Coq theorem C16_holds (every plan, every group size): from the mo
 RULE = ("group sizes {2,3,8,24,48} (thorough: 2..64) at the first, middle or last position of a 3-layer plan and under a second command; non-trivial = every case (the barrier makes sequential "
         "execution fail); the same with a `log tail --stdout --stderr` listener attached and drained; distinct by (size, position, commands, listener)")
 
-def case(ctx, rng, n, position, two_cmds, undefined_ahead=0, listener=False, named=False):
+def case(ctx, rng, n, position, two_cmds, undefined_ahead=0, listener=False, named=False, shared_exec=False):
     members = ["grp/m%02d" % i for i in range(n)]
     targets = []
     if position in ("middle", "last"): targets.append({"path": "base"})
@@ -19,17 +19,23 @@ def case(ctx, rng, n, position, two_cmds, undefined_ahead=0, listener=False, nam
         if position in ("middle", "last"): t["uses"] = ["base"]
         targets.append(t)
     if position in ("first", "middle"): targets.append({"path": "top", "uses": list(members)})
+    if shared_exec:
+        # every member maps the command to ONE shared executable (commands.definitions.<cmd>.path): still one process per member, all at once
+        for t in targets:
+            if t["path"] in members: t["commands"] = {"definitions": {"build": {"path": "tools/sync_build"}}}
     rng.shuffle(targets)
     cfg = {"targets": targets}
     cmds = ["lint", "build"] if two_cmds else ["build"]
     rr = runscen.RunRepo(ctx, cfg, commands=cmds)
+    if shared_exec:
+        os.makedirs(os.path.join(rr.repo, "tools"), exist_ok=True); os.symlink(vlib.BIN_VHELPER, os.path.join(rr.repo, "tools", "sync_build"))
     # commands no target defines: their entries are `undefined`, nothing is started for them, and they must not
     # slow down or starve the groups that follow
     ghost = ["ghost%d" % i for i in range(undefined_ahead)]
     cmds = ghost + cmds
     try:
         rr.script = {"*": {}}
-        for m in members: rr.script["build|%s" % m] = {"barrier": n, "barrier_id": "g"}
+        for m in members: rr.script["%s|%s" % ("sync_build" if shared_exec else "build", m)] = {"barrier": n, "barrier_id": "g"}
         rr.write_script()
         lst = None
         if listener:
@@ -51,7 +57,8 @@ def case(ctx, rng, n, position, two_cmds, undefined_ahead=0, listener=False, nam
             try: lst.wait(timeout=10)
             except Exception: lst.kill()
         traces = rr.traces()
-        c = {"size": n, "position": position, "commands": cmds, "undefined_ahead": undefined_ahead, "listener": listener, "named": named}
+        c = {"size": n, "position": position, "commands": cmds, "undefined_ahead": undefined_ahead, "listener": listener, "named": named, "shared_exec": shared_exec}
+        ctx.count("shared_executable" if shared_exec else "own_executables")
         ctx.count("requested_by_name" if named else "requested_by_changes")
         ctx.count("listener_attached" if listener else "no_listener")
         ctx.count("undefined_ahead_%d" % (undefined_ahead * len(targets)))
@@ -64,7 +71,7 @@ def case(ctx, rng, n, position, two_cmds, undefined_ahead=0, listener=False, nam
         together = bool(grp) and set(members) <= set(grp[0].keys())
         ok = rc == 0 and not out.get("failed") and all(st.get(m, ("?",))[0] == "success" for m in members) and not timed_out and together
         # overlap evidence from the children's own clocks: every member started before any member ended
-        ms = [t for t in traces if t["command"] == "build" and t["target"] in members]
+        ms = [t for t in traces if t["command"] in ("build", "sync_build") and t["target"] in members]
         overlap = bool(ms) and max(t["start_ns"] for t in ms) < min((t["end_ns"] or 0) for t in ms)
         ctx.record(c, True, ok and overlap, ok, True,
                    sample={"size": n, "position": position, "commands": cmds, "rc": rc, "all_started_before_any_ended": overlap},
@@ -84,11 +91,14 @@ def run(ctx, scale):
     # the group requested by naming its members (with --deps), with and without dependencies among the named targets
     for i, (n, pos) in enumerate([(6, "first"), (24, "middle")] if ctx.quick() else [(2, "first"), (6, "first"), (24, "middle"), (48, "last"), (33, "first")]):
         case(ctx, random.Random(rng.getrandbits(32)), n, pos, False, named=True)
+    # all members run one shared executable
+    for i, (n, pos) in enumerate([(6, "middle"), (24, "first")] if ctx.quick() else [(2, "first"), (6, "middle"), (24, "first"), (48, "last")]):
+        case(ctx, random.Random(rng.getrandbits(32)), n, pos, False, shared_exec=True)
     # the same with a `log tail` listener attached
     for i, n in enumerate([2, 5, 24] if ctx.quick() else [2, 3, 5, 8, 24, 48]):
         case(ctx, random.Random(rng.getrandbits(32)), n, ["middle", "first", "last"][i % 3], False, listener=True)
 
 def replay(ctx, c):
     c = c.get("case", c)
-    case(ctx, random.Random(ctx.seed), c["size"], c["position"], "lint" in c.get("commands", []), c.get("undefined_ahead", 0), c.get("listener", False), c.get("named", False))
+    case(ctx, random.Random(ctx.seed), c["size"], c["position"], "lint" in c.get("commands", []), c.get("undefined_ahead", 0), c.get("listener", False), c.get("named", False), c.get("shared_exec", False))
     return {"spec_failures": [d for _, d in ctx.spec_failures][:3], "disagreements": [d for _, d in ctx.tie_breaks][:3]}
